@@ -5,6 +5,7 @@ CONTRACT_MODULES = ["contracts.sorting", "contracts.refcount", "contracts.tasks"
 FUNCTIONS = [c.qualname for c in _r.REPRS] + ["BinOpExpr.__repr__@operator-tokens", "Manager.load", "Manager.copy_expr_from"]
 RAC = "rac/c11.py"
 RAC_BUDGET = {"quick": 60, "thorough": 900}
+RAC_MIN = {"quick": 2040, "thorough": 2040}      # fewer run-time evaluations than this = the harness skipped its work: checker broken, not "held"
 DESIGN_REF = "DESIGN.md section 4, C11"
 TECHNIQUE = ("contract-based deductive verification of the printing rule of each reference/expression class (pyvc: __repr__ bodies against "
              "statement-level templates over uninterpreted text functions; operator tokens per class; load/copy_expr_from frame and index "
